@@ -282,6 +282,7 @@ def step (prop : String) (d : TD) (toks : List String) (impl : String) : TD × R
       let fails := kvNat toks "fails"
       let t' := trackRequest (boOf d) d.t r.id fails (kvNat toks "rnd") found
       finishOp d prop toks impl t' d.slow d.active "" ["track", if fails ≥ 5 then "track-fails5" else "track-other"]
+  | "tabpanic" :: _ => (d, { model := "no-panic", monitor := ["table_operation_panics"], tags := ["tabpanic"] })
   | _ => (d, { model := "bad-op", tags := ["bad-op"], nontrivial := false })
 
 end Drv.Table
